@@ -54,6 +54,14 @@ CHECKS = {
          "16 (quick) / 160 (thorough) archives x ~30 / ~250 injection offsets chosen from the independent parser's directory (part starts and interiors, footer start, directory, the 8-byte length) plus random ones; thorough also all offsets of 16 small archives. Control runs at and above the final size show the injection bites exactly below it.",
          "Fault model: first failing write at byte N and every later write fails (EFBIG as stand-in for ENOSPC). Archives stay below the 4 MiB write buffer.",
          "DESIGN.md §6 C15"),
+ "C16": ("exploration", "grammar-based generation of byte-level FASTA texts driven through the real binary; oracle = reject, or list + extract everything equal to the normalised input",
+         "480 (quick) / 10^4 (thorough) multi-file and PanSN inputs with non-IUPAC letters in later (LZ-encoded) records, header-only records, blank lines in every position, CR/LF, missing final newline, digits and gap characters.",
+         "Headers are non-empty, do not start with '>' or blanks; non-letter characters above '@' are not generated.",
+         "DESIGN.md §6 C16"),
+ "C17": ("exploration", "proptest over create flag combinations, request lists and prefixes through the real binary; metamorphic composition oracle (multi-sample output = concatenation of single-sample outputs) and exit-status oracle over 18 failure requests",
+         "240 (quick) / 4000 (thorough) cases, ~40 process runs each: stdout and -o for lists with repeats and for prefixes matching several samples; unsupported flags --batch/--adaptive/--concatenated; unknown names, missing / truncated / garbage archives.",
+         "Single-sample getset is the reference for composition.",
+         "DESIGN.md §6 C17"),
  "C20": ("exploration", "exhaustive enumeration of small k / short strings + proptest random strings vs naive string model",
          "All 4^k windows for k<=8 and all strings up to length k+3 over {A,C,G,T,N} for small k are enumerated; k up to 32 (weighted to 31/32) is sampled with 2*10^5 (quick) / 5*10^6 (thorough) random strings. Exploration is the right level: the property is a pure function law and the risky region (k=32, shift 0) is reached by construction.",
          "Trusts the naive model in vlib/src/naive.rs (string reversal, left-aligned 2-bit packing). Callers' reset-at-non-ACGT protocol is part of the checked behaviour.",
